@@ -470,7 +470,7 @@ pub struct RemoteDesc {
 
 /// Run decode / encode cases for every record type of every description.
 /// `mk` creates one target per worker.
-pub fn run_remote<T: Target>(prop: &str, be: Backend, seed: u64, thorough: bool, descs: &[RemoteDesc], kf: &Kf, workers: usize, mk: &(dyn Fn(usize) -> Result<T, String> + Sync)) -> Result<Partial, Infra> {
+pub fn run_remote<T: Target>(prop: &str, be: Backend, seed: u64, cases: (u32, u32), descs: &[RemoteDesc], kf: &Kf, workers: usize, mk: &(dyn Fn(usize) -> Result<T, String> + Sync)) -> Result<Partial, Infra> {
     let parts: Vec<Result<Partial, String>> = std::thread::scope(|sc| {
         let mut hs = vec![];
         for w in 0..workers {
@@ -495,7 +495,7 @@ pub fn run_remote<T: Target>(prop: &str, be: Backend, seed: u64, thorough: bool,
                             tags.extend(type_tags(&r, &dsc));
                         }
                         let dtags = pdlv_core::dtags::desc_tags(&rd.desc);
-                        for (kind, cases) in [("dec", if thorough { 4000 } else { 600 }), ("enc", if thorough { 1500 } else { 200 })] {
+                        for (kind, cases) in [("dec", cases.0), ("enc", cases.1)] {
                             let tag = format!("{prop}/{}/{}/{kind}", rd.idx, ty);
                             let failed = std::cell::Cell::new(false);
                             let tcell = std::cell::RefCell::new(&mut target);
